@@ -52,6 +52,7 @@ pub fn run_c02(ctx: &Ctx) -> i32 {
             cfg.max_h = 40;
         }
         let (mut sp, palprog) = gen::gen_sprite(&mut rng, &cfg);
+        let mut hidden_cover = 0u64;
         if i % 25 == 13 && sp.fmt != Fmt::Indexed {
             // an all-opaque cel at least as large as the canvas on a Normal layer at opacity 255 - placed exactly on the
             // canvas or slightly off it, at cel opacity 255 or less - and, in the next frame, a link to it whose own chunk
@@ -66,6 +67,11 @@ pub fn run_c02(ctx: &Ctx) -> i32 {
             top.blend = 0;
             top.opacity = 255;
             top.level = 0;
+            // one time in three the covering layer is HIDDEN: then it covers nothing, whatever lies below shows
+            if rng.chance(1, 3) {
+                top.flags &= !1;
+                hidden_cover = 1;
+            }
             sp.layers.push(top);
             let l = (sp.layers.len() - 1) as u16;
             let (cw, ch) = (w + rng.range(0, 2) as u16, h + rng.range(0, 2) as u16);
@@ -76,6 +82,9 @@ pub fn run_c02(ctx: &Ctx) -> i32 {
             }
             let (x, y) = *rng.pick(&[(0i16, 0i16), (0, 0), (1, 0), (0, -1), (-1, -1), (w as i16 / 2, 0)]);
             let op = *rng.pick(&[255u8, 255, 128, 1, 0]);
+            // (a hidden cover is, half the time, the perfect cover: exactly the canvas, at the origin, fully opaque)
+            let perfect = hidden_cover == 1 && rng.chance(1, 2);
+            let (cw, ch, x, y, op, px) = if perfect { (w, h, 0, 0, 255, px[..w as usize * h as usize * bpp].to_vec()) } else { (cw, ch, x, y, op, px) };
             sp.cels.insert((0, l), CelM { x, y, opacity: op, content: CelContentM::Image { w: cw, h: ch, pixels: px }, ud: None });
             sp.cels.insert((1, l), CelM { x: 0, y: 0, opacity: 255, content: CelContentM::Link(0), ud: None });
             for f in 2..sp.durations.len() as u16 {
@@ -88,6 +97,7 @@ pub fn run_c02(ctx: &Ctx) -> i32 {
         let stacked: u64 = (0..sp.durations.len()).map(|f| (0..sp.layers.len()).filter(|l| visible[*l] && sp.cels.contains_key(&(f as u16, *l as u16))).count() as u64).max().unwrap_or(0);
         res.count(&format!("max_stack_depth_{:02}", stacked.min(12)), 1);
         res.count("frames_rendered", sp.durations.len() as u64);
+        res.count("hidden_covering_cels", hidden_cover);
         res.count("cels", sp.cels.len() as u64);
         res.count("hidden_layers_with_cels", (0..sp.layers.len()).filter(|l| !visible[*l] && sp.cels.keys().any(|k| k.1 == *l as u16)).count() as u64);
         res.count("offcanvas_or_partial_cels", sp.cels.values().filter(|c| c.x < 0 || c.y < 0 || c.x as i32 + 1 > sp.width as i32 || c.y as i32 + 1 > sp.height as i32).count() as u64);
@@ -99,6 +109,20 @@ pub fn run_c02(ctx: &Ctx) -> i32 {
                 res.outcomes = vec!["violation".into()];
                 res.violations.push(v);
             }
+        }
+        if i < 6 {
+            // "using the layer's blend mode": six two-layer sprites that push all 65 536 (backdrop, source) channel pairs
+            // through each of the 19 modes (opaque pair first, then random alpha / opacity pairs) - C03 owns the blend
+            // arithmetic and scans it far more widely; this keeps C02's own verdict from resting on random pixel values
+            let mut prng = Rng::derive(ctx.seed, "C02-plane", i);
+            let (ba, sa, lo, co) = if i == 0 { (255, 255, 255, 255) } else { (prng.u8() | 1, prng.u8() | 1, prng.opacity(), prng.opacity()) };
+            let plane = crate::blendscan::plane_a(ba, sa, lo, co);
+            match crate::blendscan::render_plane(&plane, &crate::blendscan::ALL_MODES) {
+                Ok(r) => res.violations.extend(crate::blendscan::check_oracle(&plane, &crate::blendscan::ALL_MODES, &r)),
+                Err(v) => res.violations.push(v),
+            }
+            res.count("blend_mode_planes_all_channel_pairs", 1);
+            res.leaves += 65_536 * 19;
         }
         if i == 0 {
             res.sample = Some(json!({"case": i, "model": sprite_summary(&sp)}));
